@@ -43,7 +43,7 @@ def holds(name, cond, x):
 
 
 def gen_base(rng, name):
-    c = gen.dm_case(rng, nmax=8, mmax=5, nmin=2, mmin=2, modes=("tiny012", "tiny123", "int"), big=0.0, int_dtypes=0.4)
+    c = gen.dm_case(rng, nmax=8, mmax=5, nmin=2, mmin=2, modes=("tiny012", "tiny123", "int"), big=0.0, int_dtypes=0.4, label_kinds=False)
     m = len(c["criteria"])
     k = rng.randint(1, min(4, m))
     crits = rng.sample(c["criteria"], k)
@@ -153,7 +153,7 @@ def run(ctx):
                 c["tf"]["conditions"] = [list(x) for x in od]
                 cases.append(c)
     for _ in range(ctx.n(80, 1500)):
-        c = gen.dm_case(ctx.rng, nmax=8, mmax=4, nmin=2, mmin=1, modes=("tiny012", "tiny123", "int"), big=0.0)
+        c = gen.dm_case(ctx.rng, nmax=8, mmax=4, nmin=2, mmin=1, modes=("tiny012", "tiny123", "int"), big=0.0, label_kinds=False)
         c["tf"] = {"cls": "FilterNonDominated", "params": {"strict": ctx.rng.random() < 0.5}, "kind": 6}
         cases.append(c)
     outs = I.pmap(run_impl, cases)
